@@ -28,11 +28,14 @@ def aux_events(seed):
     w = None
     try:
         w = W.World(runs.bdir(), seed=seed, tag="ax%d" % seed)
-        args = ["-f", "-4", "-P", "pw"] + (["-n", "192.0.2.%d" % (seed % 200 + 1)] if seed % 2 else []) + ["10.0.0.1/24", DOM]
+        v6 = (seed // 2) % 2 == 1          # every other pair of runs asks over the IPv6 listening socket
+        args = ["-f", "-P", "pw"] + ([] if v6 else ["-4"]) + (["-n", "192.0.2.%d" % (seed % 200 + 1)] if seed % 2 else []) + \
+            ["10.0.0.1/24", DOM]
         w.spawn("S", "S", args)
         w.run_until(t=w.now + 1000)
         got = []
-        src = ("10.9.2.1", 5301)
+        src = ("fd00::9", 5301) if v6 else ("10.9.2.1", 5301)
+        dstaddr = (W.SERVER_IP6, 53) if v6 else (W.SERVER_IP, 53)
         w.endpoints[src] = lambda wd, serial, s, d, data: got.append(data)
         dl = [b"t", b"example", b"com"]
 
@@ -63,7 +66,7 @@ def aux_events(seed):
                 qt, kind = rng.choice([D.T_NULL, D.T_TXT, D.T_CNAME, D.T_MX, D.T_SRV, D.T_A]), "Ans"
             q = D.build_query(rng.randrange(1, 65536), labels, qt, edns=bool(i % 3))
             del got[:]
-            w.send(src, (W.SERVER_IP, 53), q, "asker")
+            w.send(src, dstaddr, q, "asker")
             w.run_until(t=w.now + 3000)
             for a in got:
                 ev = {"e": kind, "q": list(q), "a": list(a)}
@@ -117,6 +120,7 @@ def main(tier):
     chk.cov["sim_datagrams"] = nsim
     chk.cov["aux_events"] = sum(len(e) for e in aux)
     chk.cov["aux_kinds"] = sorted({e["e"] for evs in aux for e in evs})
+    chk.cov["aux_runs_answered"] = sum(1 for evs in aux if evs)
     chk.cov["writer_datagrams"] = sum(n for p, n, rc, e in prod)
     chk.cov["distinct_nontrivial"] = dn
     chk.cov["rule"] = ("one evaluation = one emitted datagram (or answer/query pair) parsed by TLC with DnsWire.tla; non-trivial = "
